@@ -31,6 +31,7 @@ def run(ctx):
     ctx.floor('C04.forwards_calls', 1000)
     ctx.floor('C04.declared_wrappers', 500)
     ctx.floor('C04.executed', 300)
+    ctx.floor('C04.chain_executed', 40)
     ctx.floor('C04.exactness_checked', 100)
     saved = ctx.deadline
     ctx.deadline = ctx.clock() + {'quick': 12, 'thorough': 150}[ctx.tier]
@@ -41,7 +42,7 @@ def run(ctx):
 
 def replay(ctx, rec):
     monitor.enable(*monitors(ctx))
-    if rec.get('workload') == 'decl':
+    if rec.get('workload') in ('decl', 'decl-chain'):
         w_decl.replay(ctx, rec)
     else:
         w_alg.replay(ctx, rec)
